@@ -215,6 +215,11 @@ func runOnSending(vm *otto.Otto, src string, sendAt int, fn func()) string {
 
 func dumpOf(vm *otto.Otto) string {
 	var s string
+	// the step cap is per program: the dumper starts from zero like every
+	// program does (it used to inherit the count of the runtime's last program,
+	// so a dump taken after a long program could be cut off on the node and not
+	// on its twin)
+	crtOf(vm).steps = 0
 	func() {
 		defer func() {
 			if x := recover(); x != nil {
